@@ -16,7 +16,7 @@ TIERS = {"quick": {"runs": 1500, "budget_s": 75, "chunk": 10, "min_runs": 60},
          "thorough": {"runs": 200000, "budget_s": 1500, "chunk": 20, "min_runs": 1000}}
 RULE = ("case = seeded (definition set biased to expression-length arrays, bit-fields, unions, pointers, enums; config; 2-4 "
         "threads each with its own accepted input and script parse/dumps/deref on the SHARED type objects); per case a set "
-        "of schedules: PCT-style 1-3 pre-emptions at uniformly drawn global library-line steps, a sweep window placing one pre-emption at each of up to 40 consecutive steps, and overlap "
+        "of schedules: PCT-style 1-3 pre-emptions at uniformly drawn global library-line steps, function-uniform schedules (a library function of the first thread drawn uniformly, then one of its executed lines), a sweep window placing one pre-emption at each of up to 40 consecutive steps, and overlap "
         "schedules (the first thread is parked inside a library function, another thread runs until it is inside the same function, then back), "
         "sandwich schedules (first thread finishes an op, another is stopped inside a function the first thread's next op runs too) and "
         "first-call schedules (first thread stopped at each line of its FIRST execution of a library function, rarest functions first, "
@@ -37,7 +37,9 @@ FORCE = ("expr", "bits", "union", "ptr", "enum", "array", "null", "nested")
 
 
 def gen_case(rng: random.Random, tier: str):
-    cfg = gen.gen_config(rng)
+    # narrow pointers are favoured: with random input bytes an 8- or 16-bit address usually lies inside the thread's data, so
+    # dereferences really read a target instead of failing on a dangling address
+    cfg = gen.gen_config(rng, pointer_choices=("uint8", "uint8", "uint16", "uint16", "uint32", "uint64"))
     sw = gen.gen_swarm(rng)
     for k in FORCE:
         if rng.random() < 0.6:
@@ -283,6 +285,19 @@ def run_case(case, stats):
         for _ in range(case["n_sched"]):
             d = srng.choice((1, 1, 2, 2, 3))
             scheds.append(sorted([srng.randrange(1, N + 1), srng.getrandbits(8)] for _ in range(d)))
+        # function-uniform schedules: a library function of the first thread is drawn uniformly (not a step: steps are
+        # dominated by the hot parse loops), then one of its executed lines; the thread is pre-empted there and another
+        # thread runs (its whole script, or until a second random pre-emption)
+        ta0 = [k_ for t_, k_ in sch0.trace if t_ == case["order"][0]]
+        funcs = sorted(set(ta0))
+        if funcs and len(case["order"]) > 1:
+            for _ in range(12 if case["n_sched"] <= 24 else 60):
+                F = srng.choice(funcs)
+                a = srng.choice([i_ for i_, k_ in enumerate(ta0) if k_ == F])
+                plan = [[a + 1, srng.getrandbits(8)]]
+                if srng.random() < 0.4:
+                    plan.append([a + 1 + srng.randrange(1, 80), srng.getrandbits(8)])
+                scheds.append(plan)
         # sweep window: one pre-emption at each of up to 40 consecutive steps
         w0 = srng.randrange(1, N + 1)
         for s in range(w0, min(N, w0 + (30 if case["n_sched"] <= 24 else 120)) + 1):
